@@ -1,4 +1,8 @@
 //! C12: hedge. script = [max, mode, ncalls, nd, d_1 .. d_nd, (op a b)*]
+//!   max: 0..16 is passed to the builder as it is (the builder turns 0 into 1); a larger value is
+//!   passed as it is too (capped at usize::MAX) when the delay is Fixed and positive -- one hedge
+//!   per poll at most, so that a script never launches more attempts than it has events -- and
+//!   counts as 16 otherwise
 //!   mode mod 4: 0 (or 3) = HedgeDelay::Fixed(d_1)  1 = Immediate  2 = Dynamic(|k| d_k, 0 beyond nd)
 //!   (mode / 4) mod 2 = 1: gated readiness — every attempt CLONE of the inner service is not ready
 //!   until the script says so (the instance the caller polled ready, used by the primary, is ready)
@@ -15,6 +19,8 @@
 //!     attempt then fails without making an inner call)
 //!   | 7 SyncPanic a (a = 16*i + n: the n-th inner call made for call i panics -- synchronously,
 //!     inside inner.call(), if it has not been made yet; like Complete a 2 if it is in flight)
+//!   | 8 Create i (call i is made -- poll_ready + Hedge::call() -- but its future is not polled;
+//!     without it a call is made by its first Poll / Drop)
 //! Call i is made with request value i, so the n-th inner call of call i is the n-th inner call
 //! with request i. An inner-service instance cloned while the harness polls the future of call i
 //! is an attempt clone of call i (lineage i); instances cloned anywhere else (by the harness, in
@@ -122,7 +128,6 @@ impl Service<i128> for RInner {
 const DMAX: i128 = 1_000_000_000_000_000_000;
 
 fn run(s: &[i128]) -> Vec<i128> {
-    let max = zn(s, 0).clamp(0, 16) as usize;
     let mode_raw = zn(s, 1).clamp(0, 63);
     let mode = mode_raw % 4;
     let gated = (mode_raw / 4) % 2 == 1;
@@ -134,6 +139,12 @@ fn run(s: &[i128]) -> Vec<i128> {
         if d >= DMAX { Duration::MAX } else if micros { Duration::from_micros(d as u64) } else { Duration::from_millis(d as u64) }
     };
     let ds: Vec<Duration> = (0..nd).map(|j| dur(zn(s, 4 + j).clamp(0, DMAX))).collect();
+    let fixed_pos = mode != 1 && mode != 2 && ds.first().map_or(false, |d| *d > Duration::ZERO);
+    let max: usize = if zn(s, 0) > 16 && fixed_pos {
+        zn(s, 0).min(usize::MAX as i128) as usize
+    } else {
+        zn(s, 0).clamp(0, 16) as usize
+    };
     let rt = paused_rt();
     let t_base = now_ns();
     rt.block_on(async move {
@@ -165,7 +176,7 @@ fn run(s: &[i128]) -> Vec<i128> {
             sh.take_starts();
             rsh.asks.lock().unwrap().clear();
             match op {
-                1 | 2 => {
+                1 | 2 | 8 => {
                     if a < 0 || a as usize >= ncalls { continue; }
                     let i = a as usize;
                     if !created[i] {
@@ -195,7 +206,9 @@ fn run(s: &[i128]) -> Vec<i128> {
                         ncreated += 1;
                     }
                     let m = callers[i].as_mut().unwrap();
-                    if op == 1 {
+                    if op == 8 {
+                        // made, not polled
+                    } else if op == 1 {
                         if !m.alive() {
                             r = 9;
                         } else {
